@@ -157,7 +157,11 @@ pub fn main(args: &[String]) {
                         else { rep.violation("output of a successful run is not a fixed point", &first, t2.text()); }
                     } else { rep.count("fixpoint-ok"); }
                 }
-                Ok(Err(e)) => { if !uses_pos { rep.violation(&format!("re-preprocessing a successful output fails: {}", err_str(&e)), &first, ""); } }
+                Ok(Err(e)) => {
+                    // D4: a directive in the trailing trivia of a string is kept as text AND executed; re-feeding such an output runs it once more
+                    if uses_pos {} else if scan_class(&first).1 { rep.known("strlit-trailing-trivia", &format!("re-preprocessing an output fails ({}): it contains a string / escaped identifier directly followed by trivia", err_str(&e)), &first, ""); }
+                    else { rep.violation(&format!("re-preprocessing a successful output fails: {}", err_str(&e)), &first, ""); }
+                }
                 Err(e) => rep.violation(&format!("panic on re-preprocessing: {}", util::panic_msg(e)), &first, ""),
             }
         }
